@@ -252,8 +252,9 @@ impl vstd::std_specs::ops::AddSpecImpl<Uint128> for Uint128 {
 impl core::ops::Add<Uint128> for Uint128 {
     type Output = Uint128;
     #[verifier::external_body]
+    // cosmwasm-std: `+` on Uint128 panics on overflow, so a call that returns did not overflow (partial correctness)
     fn add(self, o: Uint128) -> (r: Uint128)
-        ensures fits((self.u + o.u) as nat) ==> r.u == self.u + o.u
+        ensures fits((self.u + o.u) as nat), r.u == self.u + o.u
     { self }
 }
 impl vstd::std_specs::ops::SubSpecImpl<Uint128> for Uint128 {
@@ -267,8 +268,9 @@ impl core::ops::Sub<Uint128> for Uint128 {
 }
 impl core::ops::AddAssign<Uint128> for Uint128 {
     #[verifier::external_body]
+    // likewise `+=` (panics on overflow)
     fn add_assign(&mut self, o: Uint128)
-        ensures fits((old(self).u + o.u) as nat) ==> final(self).u == old(self).u + o.u
+        ensures fits((old(self).u + o.u) as nat), final(self).u == old(self).u + o.u
     { }
 }
 impl vstd::std_specs::ops::AddAssignSpecImpl<Uint128> for Uint128 {
